@@ -10,6 +10,7 @@ import (
 	"fmt"
 	"github.com/ethereum/go-ethereum/accounts/abi/bind"
 	"math/big"
+	"os"
 	"sort"
 	"strings"
 
@@ -18,6 +19,8 @@ import (
 	v1types "buf.build/gen/go/agglayer/interop/protocolbuffers/go/agglayer/interop/types/v1"
 	agglayergrpc "github.com/agglayer/aggkit/agglayer/grpc"
 	agglayertypes "github.com/agglayer/aggkit/agglayer/types"
+	aggsenderdb "github.com/agglayer/aggkit/aggsender/db"
+	aggsendertypes "github.com/agglayer/aggkit/aggsender/types"
 	"github.com/agglayer/aggkit/bridgesync"
 	cfgtypes "github.com/agglayer/aggkit/config/types"
 	"github.com/agglayer/aggkit/db"
@@ -587,7 +590,68 @@ func (w *asWorld) checkClaimProofs(c *asCert, cs []*bridgesync.Claim) {
 
 // ---------- generator ----------
 
+// the certificate table against the simplest spec there is (a map height -> last saved header): random saves on a scratch
+// storage, among them replacements that carry the id of the certificate they replace (a replacement built from unchanged
+// inputs is byte-identical to the certificate it replaces, and the id is a hash of the contents)
+func asStoreSeq(r *Run, rng *Rng) {
+	dir, err := os.MkdirTemp("", "verif-asstore")
+	must(err)
+	defer os.RemoveAll(dir)
+	for _, hist := range []bool{false, true} {
+		st, err := aggsenderdb.NewAggSenderSQLStorage(lg(), aggsenderdb.AggSenderSQLStorageConfig{
+			DBPath: fmt.Sprintf("%s/s%v.sqlite", dir, hist), KeepCertificatesHistory: hist})
+		must(err)
+		spec := map[uint64]aggsendertypes.CertificateHeader{}
+		top := uint64(0)
+		for i := 0; i < 40; i++ {
+			h := top
+			if _, ok := spec[top]; ok && rng.Chance(40) {
+				h = top + 1
+			}
+			hdr := aggsendertypes.CertificateHeader{Height: h, CertificateID: idHash(7000000 + rng.U64()%1000000),
+				NewLocalExitRoot: common.BytesToHash(rng.Bytes(32)), FromBlock: h * 10, ToBlock: h*10 + 9,
+				Status: agglayertypes.Pending, CreatedAt: uint32(1000 + i), UpdatedAt: uint32(1000 + i)}
+			if old, ok := spec[h]; ok {
+				hdr.RetryCount = old.RetryCount + 1
+				if rng.Chance(50) {
+					hdr.CertificateID, hdr.NewLocalExitRoot = old.CertificateID, old.NewLocalExitRoot // byte-identical replacement
+					r.Count("store-seq:replacement-with-the-same-id")
+				} else {
+					r.Count("store-seq:replacement-with-a-new-id")
+				}
+			} else {
+				r.Count("store-seq:new-height")
+			}
+			if rng.Chance(30) {
+				hdr.Status = agglayertypes.InError
+			}
+			r.Evals++
+			if err := st.SaveLastSentCertificate(context.Background(), aggsendertypes.Certificate{Header: &hdr}); err != nil {
+				r.Fail(fmt.Sprintf("[C13,C02] SaveLastSentCertificate(height %d, retry %d) failed on a healthy store: %v", h, hdr.RetryCount, err), nil)
+				return
+			}
+			spec[h] = hdr
+			top = h
+			for hh, want := range spec {
+				got, err := st.GetCertificateHeaderByHeight(hh)
+				if err != nil || got == nil || got.CertificateID != want.CertificateID || got.Status != want.Status ||
+					got.RetryCount != want.RetryCount || got.NewLocalExitRoot != want.NewLocalExitRoot || got.FromBlock != want.FromBlock || got.ToBlock != want.ToBlock {
+					r.Fail(fmt.Sprintf("[C13,C02] after saving certificate %s (height %d, status %s, retry %d) the table holds for height %d: %v (err %v); saved last for that height: status %s retry %d id %s (history=%v)",
+						hdr.CertificateID.Hex()[:10], h, hdr.Status, hdr.RetryCount, hh, got, err, want.Status, want.RetryCount, want.CertificateID.Hex()[:10], hist), nil)
+					return
+				}
+			}
+			last, err := st.GetLastSentCertificateHeader()
+			if err != nil || last == nil || last.Height != top || last.Status != spec[top].Status || last.RetryCount != spec[top].RetryCount {
+				r.Fail(fmt.Sprintf("[C13,C02] the last certificate read back after a save is %v (err %v), saved: height %d status %s retry %d", last, err, top, spec[top].Status, spec[top].RetryCount), nil)
+				return
+			}
+		}
+	}
+}
+
 func asGen(r *Run, rng *Rng) {
+	asStoreSeq(r, NewRng(rng.U64()))
 	w := &asWorld{r: r}
 	defer w.close()
 	nw, steps := 12, 60
@@ -719,6 +783,21 @@ func asWorldGen(r *Run, rng *Rng, w *asWorld, steps int) {
 		do("epoch")
 		r.Count("branch:prelude-recovered-replacement-replaced")
 	}
+	if rng.Chance(35) {
+		// directed prelude: the node stops between submitting a certificate and recording it; at the next start-up the
+		// pending-header query fails on the first reconciliation pass (the settled-header query answers); an epoch tick follows
+		l2++
+		do(fmt.Sprintf("l2blk %d b:0:%d", l2, rng.U64()%1000000))
+		do("epoch!")
+		if w.node == nil {
+			do("failrec p")
+			if out := do("restart"); strings.HasPrefix(out, "refused") {
+				do("restart")
+			}
+		}
+		do("epoch")
+		r.Count("branch:prelude-pending-query-fails-at-startup")
+	}
 	if optWorld && rng.Bool() {
 		do("opt on")
 	}
@@ -803,7 +882,7 @@ func asWorldGen(r *Run, rng *Rng, w *asWorld, steps int) {
 		case x < 90:
 			do("crash")
 			if rng.Chance(20) {
-				do("failrec")
+				do([]string{"failrec", "failrec p", "failrec s"}[rng.Intn(3)])
 				do("restart")
 			}
 			if i > steps*2/3 && rng.Chance(40) {
@@ -819,14 +898,20 @@ func asWorldGen(r *Run, rng *Rng, w *asWorld, steps int) {
 						do(fmt.Sprintf("move %d %s", c.id, []string{"E", "S", "V"}[rng.Intn(3)]))
 					}
 				}
+				if rng.Chance(40) {
+					// one of the two header queries of the reconciliation fails on the first pass
+					do([]string{"failrec", "failrec p", "failrec s"}[rng.Intn(3)])
+				}
 				do("restart")
 			}
 		case x < 95:
 			do("losedb")
 			do("restart")
-		case x < 97:
+		case x < 96:
 			do(fmt.Sprintf("savefault %d", 1+rng.Intn(3)))
 			do("epoch")
+		case x < 97:
+			do("epoch?") // the records cannot be read during this tick: the node must neither build nor submit
 		default:
 			l1++
 			do(fmt.Sprintf("l1blk %d %d", l1, rng.Intn(3)))
